@@ -55,12 +55,16 @@ structure E2EDom (K V P H M Pat : Type) where
   convert : Pat → Option (List (Constraint K P))
   consEq : List (Constraint K P) → List (Constraint K P) → Bool
   extraKeys : Pat → List K
-  /-- occurrence oracle: the expected multiset of match data of this pattern on this host -/
-  expected : Option (Pat → H → List M)
+  /-- occurrence oracle: given the match data reported for this pattern on this host, returns
+  (reported but not occurring, occurring but not reported, reported more than once) -/
+  judge : Option (Pat → H → List M → List String × List String × List String)
   /-- classify a miss / false positive as a listed known finding (signature), if any -/
   known : Pat → Option String := fun _ => none
   /-- classify an automaton-vs-baseline difference as a listed known finding, if any -/
   knownC03 : Pat → Option String := fun _ => none
+  /-- compare the baseline's results in emission order (false: as multisets, where the order
+  depends on a hash iteration order, c9) -/
+  orderedBaseline : Bool := true
 
 structure E2EOut where
   oracle : List String := []
@@ -174,7 +178,8 @@ def handleE2E {K V P H M Pat} [DecidableEq K] [DecidableEq V] [DecidableEq P]
       | .error e => out := { out with dis := out.dis ++ [s!"SINGLE.run model-error {e}"] }
       | .ok ns =>
         let modelNaive := ns.map fun (i, m) => s!"{i}:{dom.sMap m}"
-        if modelNaive != implNaive then
+        if (if dom.orderedBaseline then modelNaive != implNaive
+            else sortStrings modelNaive != sortStrings implNaive) then
           out := { out with dis := out.dis ++ [s!"SINGLE.run matches differ model={join modelNaive} impl={join implNaive}"] }
       -- C03: automaton vs baseline (ids of the baseline are positions among the compiled ones)
       for i in compiled do
@@ -187,35 +192,32 @@ def handleE2E {K V P H M Pat} [DecidableEq K] [DecidableEq V] [DecidableEq P]
           | none => out := { out with oracle := out.oracle ++
               [s!"C03 automaton-vs-baseline pattern={i} many-only={join (multisetDiff manySet naiveSet)} baseline-only={join (multisetDiff naiveSet manySet)}"] }
       -- C05 baseline vs occurrence oracle
-      match dom.expected with
+      match dom.judge with
       | none => pure ()
-      | some exp =>
+      | some judge =>
         for i in compiled do
           match pats[i]? with
           | none => pure ()
           | some p =>
-            let want := ((exp p h).map dom.sMap).eraseDups
             let j := compiled.idxOf i
-            let got := ((naive.filter (·.1 == j)).map fun (_, m) => dom.sMap m).eraseDups
-            if sortStrings want != sortStrings got then
+            let got := (naive.filter (·.1 == j)).map (·.2)
+            let (fp, missed, _) := judge p h got
+            if !fp.isEmpty || !missed.isEmpty then
               match dom.known p with
               | some sig => out := { out with known := out.known ++ [s!"C05 {sig}"] }
               | none => out := { out with oracle := out.oracle ++
-                  [s!"C05 baseline pattern={i} want={join want} got={join got}"] }
+                  [s!"C05 baseline pattern={i} reported-but-not-occurring={join fp} occurring-but-not-reported={join missed}"] }
     -- C01 / C02 / C07 against the occurrence oracle
-    match dom.expected with
+    match dom.judge with
     | none => pure ()
-    | some exp =>
+    | some judge =>
       for i in compiled do
         match pats[i]? with
         | none => pure ()
         | some p =>
-          let want := (exp p h).map dom.sMap
-          nOcc := nOcc + want.length
-          let got := (many.filter (·.1 == i)).map fun (_, m) => dom.sMap m
-          let falsePos := got.filter fun g => !want.contains g
-          let missed := want.filter fun w => !got.contains w
-          let dups := multisetDiff got got.eraseDups
+          let got := (many.filter (·.1 == i)).map (·.2)
+          let (falsePos, missed, dups) := judge p h got
+          nOcc := nOcc + got.length
           if !falsePos.isEmpty then
             match dom.known p with
             | some sig => out := { out with known := out.known ++ [s!"C01 {sig}"] }
@@ -263,11 +265,19 @@ occurrence, extent = pattern length -/
 def strExpected (p : List CharVar) (h : List Nat) : List StrPos :=
   if p.isEmpty then [.unbound] else (strOccurrences p h).map fun a => .bound a p.length
 
+/-- judge from an expected multiset of match data -/
+def judgeExpected {Pat H M} (sMap : M → String) (exp : Pat → H → List M) (p : Pat) (h : H)
+    (got : List M) : List String × List String × List String :=
+  let want := (exp p h).map sMap
+  let gotS := got.map sMap
+  (gotS.filter fun g => !want.contains g, want.filter fun w => !gotS.contains w,
+    multisetDiff gotS gotS.eraseDups)
+
 def strE2E : E2EDom Nat Nat CharPred (List Nat) StrPos (List CharVar) :=
   { name := "STR", D := strDomain, toTree := charTree natLt,
     pKey := pNat, pCons := pSCons, pPat := pList pCharVar, pHost := pList pNat, pMap := pStrPos,
     sMap := sStrPos, convert := fun p => some (strConstraints p), consEq := fun a b => a == b,
-    extraKeys := fun _ => [], expected := some strExpected }
+    extraKeys := fun _ => [], judge := some (judgeExpected sStrPos strExpected) }
 
 end Drv
 
@@ -295,7 +305,7 @@ def matE2E : E2EDom MKey MVal CharPred MatHost MatPos MatPattern :=
   { name := "MAT", D := matDomain, toTree := charTree mkeyLt,
     pKey := pMKey, pCons := pMCons, pPat := pList (pList pMatCell), pHost := pList (pList pNat),
     pMap := pMatPos, sMap := sMatPos, convert := fun p => some (matConstraints p),
-    consEq := fun a b => a == b, extraKeys := fun _ => [], expected := some matExpected }
+    consEq := fun a b => a == b, extraKeys := fun _ => [], judge := some (judgeExpected sMatPos matExpected) }
 
 structure TPat where
   cons : List TCons
@@ -318,7 +328,7 @@ def tableE2E (s : TScheme) (strategy : Nat) : E2EDom Nat Nat TPred THost TMap TP
     convert := fun p => if p.convertible then some p.cons else none,
     consEq := fun a b => a == b,
     extraKeys := fun p => p.extra.getD [],
-    expected := none,
+    judge := none,
     knownC03 := fun p => if (p.extra.getD []).isEmpty then none
       else some "baseline-ignores-Pattern::required_bindings" }
 
